@@ -330,6 +330,9 @@ def programs(
             other = shapes[1]
             if draw(st.integers(0, 2)) == 0:
                 other = add(["const", draw(st.sampled_from([["int", 0], ["int", 1], ["float", "0x0p+0"]])), shapes[0]], s)
+            elif allow_named and (s != "f" or allow_named == "all") and draw(st.integers(0, 2)) == 0:
+                # a sign-known expression against a named constant (the rewriter has table rows for these too)
+                other = add(["named", draw(st.sampled_from(list(named))), a], s)
             k = draw(st.sampled_from(COMPARE))
             if draw(st.booleans()):
                 add([k, shapes[0], other], "b")
